@@ -1588,6 +1588,17 @@ class Engine:
                     return v          # rdflib.URIRef is a str subclass; str(x) of a str is x
                 raise Unsupported(name + "() of " + type(v).__name__)
             if name == "_is_valid_uri" and len(node.args) == 1:
+                if not self.in_spec:
+                    # in code the name must still be rdflib's: imported from rdflib.term, not redefined in the module
+                    mtree = self.repo.modules.get(getattr(self, "module", None))
+                    imported = any(isinstance(n_, ast.ImportFrom) and n_.module == "rdflib.term"
+                                   and any(a_.name == "_is_valid_uri" and a_.asname is None for a_ in n_.names)
+                                   for n_ in getattr(mtree, "body", []))
+                    redefined = any(isinstance(n_, (ast.FunctionDef, ast.ClassDef)) and n_.name == "_is_valid_uri"
+                                    or (isinstance(n_, ast.Assign) and any(isinstance(t_, ast.Name) and t_.id == "_is_valid_uri" for t_ in n_.targets))
+                                    for n_ in getattr(mtree, "body", []))
+                    if not imported or redefined:
+                        raise Unsupported("_is_valid_uri is no longer rdflib.term._is_valid_uri in this module")
                 v = self.ev(node.args[0], env, st)
                 self.ctx.trusted.add("rdflib.term._is_valid_uri is a (side-effect free) predicate on strings")
                 return VBool(app("valid_uri", v.t, sort="Bool"))
